@@ -118,7 +118,9 @@ func ruleOwnerFields(r *Report) {
 					}
 				})
 			}
-			if closed && !isSlice && !closedOnAllPaths(r.P, fn, closeSites, f.Name()) {
+			if closed && !isSlice && closedOnAllPaths(r.P, fn, closeSites, f.Name()) && !closedOnPaths(r.P, fn, closeSites, f.Name(), true) {
+				r.Bad(rule, key, fn.Pos(), fmt.Sprintf("%s.Close returns an error of one of its own steps (a failed flush, truncate or close of another handle) without closing its field %s: the descriptor stays open although Close was called — and a second Close is refused (exit at %s)", owner, f.Name(), lastOpenExit))
+			} else if closed && !isSlice && !closedOnAllPaths(r.P, fn, closeSites, f.Name()) {
 				r.Bad(rule, key, fn.Pos(), fmt.Sprintf("%s.Close can return without closing its field %s on some path (an early return that is not a nil test of one of the owner's own handles)", owner, f.Name()))
 			} else if closed {
 				r.OK(rule, key, fn.Pos(), "closed by the owner's Close")
@@ -645,6 +647,14 @@ func ruleJoin(r *Report) {
 // registration of a deferred closure / call that closes it), except along nil-test edges of the owner's own fields
 // ("nothing to close") and error exits of an earlier fallible step.
 func closedOnAllPaths(p *Prog, fn *ssa.Function, sites []Site, field string) bool {
+	return closedOnPaths(p, fn, sites, field, false)
+}
+
+var lastOpenExit string
+
+// closedOnPaths: strict also demands the close on error exits that lie behind a fallible step of this Close (an exit
+// before any fallible call is a state guard: not opened / already closed).
+func closedOnPaths(p *Prog, fn *ssa.Function, sites []Site, field string, strict bool) bool {
 	if len(sites) == 0 {
 		return false
 	}
@@ -689,7 +699,7 @@ func closedOnAllPaths(p *Prog, fn *ssa.Function, sites []Site, field string) boo
 	// allowed bypasses: nil edges of tests of receiver fields holding handles (pointer / interface typed)
 	for _, b := range liveBlocks(fn) {
 		if v, nilS, _, ok := nilTest(b); ok {
-			if t, g, base, isF := loadOfField(v); isF && len(fn.Params) > 0 && base == ssa.Value(fn.Params[0]) {
+			if t, g, base, isF := loadOfField(v); isF && len(fn.Params) > 0 && (base == ssa.Value(fn.Params[0]) || paramOrigin(base) == fn.Params[0]) {
 				if _, isSl := v.Type().Underlying().(*types.Slice); isSl {
 					continue
 				}
@@ -709,8 +719,31 @@ func closedOnAllPaths(p *Prog, fn *ssa.Function, sites []Site, field string) boo
 		}
 		// error exits of earlier fallible steps are not "successful closes"
 		if k, _ := returnErrOperand(rs.Instr.(*ssa.Return), idx); k != "nil" {
-			continue
+			if !strict {
+				continue
+			}
+			behindFallible := false
+			eachInstr(fn, func(c Site) {
+				ci, ok := c.Instr.(ssa.CallInstruction)
+				if !ok {
+					return
+				}
+				if _, hasErr, _ := errResults(ci); hasErr && !errConstructors(CalleeKey(ci)) && reachableFromSite(c, rs) {
+					// an immediately called function literal that fails only through its state guards (every error
+					// return lies before its first fallible step) is itself a guard
+					if mc, isMC := ci.Common().Value.(*ssa.MakeClosure); isMC {
+						if lit, isF := mc.Fn.(*ssa.Function); isF && failsOnlyAsGuard(lit) {
+							return
+						}
+					}
+					behindFallible = true
+				}
+			})
+			if !behindFallible {
+				continue
+			}
 		}
+		lastOpenExit = p.Pos(rs.Pos())
 		return false
 	}
 	return true
@@ -866,4 +899,29 @@ func ruleOwnerOverwrite(r *Report) {
 			}
 		})
 	}
+}
+
+// failsOnlyAsGuard: no error return of fn is reachable from a fallible call inside fn (its error returns are state
+// guards such as "not opened yet" / "already closed").
+func failsOnlyAsGuard(fn *ssa.Function) bool {
+	idx := errorResultIndex(fn)
+	if idx < 0 {
+		return true
+	}
+	ok := true
+	for _, rs := range returnsOf(fn) {
+		if k, _ := returnErrOperand(rs.Instr.(*ssa.Return), idx); k == "nil" {
+			continue
+		}
+		eachInstr(fn, func(c Site) {
+			ci, isC := c.Instr.(ssa.CallInstruction)
+			if !isC {
+				return
+			}
+			if _, hasErr, _ := errResults(ci); hasErr && !errConstructors(CalleeKey(ci)) && reachableFromSite(c, rs) {
+				ok = false
+			}
+		})
+	}
+	return ok
 }
